@@ -42,6 +42,8 @@ type Solver struct {
 	hard      *oneShot
 	lastHard  bool
 	HardQueries int
+	CrossCmd    string // e.g. "z3" or "cvc5 --lang=smt2": re-decides every unsat one-shot query
+	CrossChecked, CrossDisagree, CrossUnknown int
 	hardIDs     map[string]bool
 	HardBin     string // binary for one-shot queries (default z3-new)
 	FastMs    int
@@ -308,6 +310,7 @@ func (s *Solver) checkHard() Result {
 	for _, t := range asserts {
 		sb.WriteString("(assert " + t.ref() + ")\n")
 	}
+	script := sb.String()
 	sb.WriteString("(check-sat)\n")
 	io.WriteString(h.in, sb.String())
 	var r Result = Unknown
@@ -337,6 +340,18 @@ func (s *Solver) checkHard() Result {
 			continue
 		}
 		break
+	}
+	if r == Unsat && s.CrossCmd != "" {
+		// second opinion from an independent solver on the same cone-of-influence script
+		s.CrossChecked++
+		switch crossCheck(s.CrossCmd, script) {
+		case Sat:
+			s.CrossDisagree++
+			s.Errors = append(s.Errors, "(error \"cross-check solver "+s.CrossCmd+" answered sat where the primary answered unsat\")")
+			r = Unknown
+		case Unknown:
+			s.CrossUnknown++
+		}
 	}
 	s.lastHard = r == Sat
 	d := time.Since(start)
@@ -598,4 +613,39 @@ func (s *Solver) getValuesHard(ts []*Term) ([]uint64, error) {
 		}
 	}
 	return res, nil
+}
+
+// crossCheck runs an independent solver process on a complete script.
+func crossCheck(cmdline, script string) Result {
+	f, err := os.CreateTemp("", "symgo-cross-*.smt2")
+	if err != nil {
+		return Unknown
+	}
+	defer os.Remove(f.Name())
+	body := strings.Replace(script, "(reset)\n", "", 1)
+	if strings.HasPrefix(cmdline, "cvc5") {
+		body = "(set-logic QF_UFBV)\n" + strings.Replace(body, "(set-option :timeout", "(set-info :timeout", 1)
+	}
+	f.WriteString(body + "(check-sat)\n")
+	f.Close()
+	parts := strings.Fields(cmdline)
+	args := append(parts[1:], f.Name())
+	cmd := exec.Command(parts[0], args...)
+	done := make(chan []byte, 1)
+	go func() { b, _ := cmd.CombinedOutput(); done <- b }()
+	select {
+	case b := <-done:
+		for _, line := range strings.Split(string(b), "\n") {
+			switch strings.TrimSpace(line) {
+			case "sat":
+				return Sat
+			case "unsat":
+				return Unsat
+			}
+		}
+		return Unknown
+	case <-time.After(60 * time.Second):
+		cmd.Process.Kill()
+		return Unknown
+	}
 }
